@@ -70,3 +70,18 @@ def _c11(spec):
         return out
 
     return p
+
+
+@plan("kill_any")
+def _kill_any(spec):
+    """Mode F: any driver may be killed at any sync point after its start."""
+    names = spec.get("victims")
+
+    def p(w, v, op):
+        if op.kind in ("start", "exit"):
+            return []
+        if names is not None and v.name not in names:
+            return []
+        return ["kill"]
+
+    return p
